@@ -11,29 +11,45 @@ Definition pxv (W H wib : Z) (d : list Z) (c r : Z) : bool :=
   (0 <=? c) && (c <? W) && (0 <=? r) && (r <? H) && px wib d c r.
 
 (* every integer point of the rectangle [x0, x0+w) x [y0, y0+h) *)
+Fixpoint all_from (n : nat) (z : Z) (f : Z -> bool) : bool :=
+  match n with O => true | S n' => f z && all_from n' (z + 1) f end.
 Definition all_rect (x0 y0 w h : Z) (f : Z -> Z -> bool) : bool :=
-  forallb (fun r => forallb (fun c => f (x0 + Z.of_nat c) (y0 + Z.of_nat r)) (seq 0 (Z.to_nat w))) (seq 0 (Z.to_nat h)).
+  all_from (Z.to_nat h) y0 (fun r => all_from (Z.to_nat w) x0 (fun c => f c r)).
 
 (* the box callers centre and right-align with: starts at the cursor, spans the reported
    string width plus one horizontal size step, and the reported line height *)
 Definition in_box (cx cy strw sh lineh a b : Z) : bool := in_rect cx cy (strw + sh) lineh a b.
 
-(* (1) ink inside the box: every pixel that differs between the buffers lies in the box *)
+(* The laws are written over pixel accessors (column, row -> bool) so that the theorems can
+   instantiate them with the list view [px wib d] and the oracle with an indexed view of the
+   same buffer (Run/C20.v); [vis] cuts an accessor to the canvas. *)
+Definition pix := Z -> Z -> bool.
+Definition vis (W H : Z) (p : pix) : pix :=
+  fun c r => (0 <=? c) && (c <? W) && (0 <=? r) && (r <? H) && p c r.
+
+(* (1) ink inside the box: every pixel of the buffer (padding columns included, nc = 8*wib)
+   that differs between before/after lies in the box *)
+Definition box_law_p (nc H : Z) (p0 p1 : pix) (cx cy strw sh lineh : Z) : bool :=
+  all_rect 0 0 nc H (fun c r => Bool.eqb (p1 c r) (p0 c r) || in_box cx cy strw sh lineh c r).
 Definition box_law (W H wib : Z) (d0 d1 : list Z) (cx cy strw sh lineh : Z) : bool :=
-  all_rect 0 0 (8 * wib) H (fun c r => Bool.eqb (px wib d1 c r) (px wib d0 c r) || in_box cx cy strw sh lineh c r).
+  box_law_p (8 * wib) H (px wib d0) (px wib d1) cx cy strw sh lineh.
 
 (* (2) translation: rendering B (cursor moved by (dx,dy)) is rendering A shifted by (dx,dy) *)
-Definition translation_law (W H wib : Z) (dA dB : list Z) (dx dy : Z) : bool :=
+Definition translation_law_p (W H : Z) (pA pB : pix) (dx dy : Z) : bool :=
   all_rect (- Z.abs dx) (- Z.abs dy) (W + 2 * Z.abs dx) (H + 2 * Z.abs dy)
-    (fun c r => Bool.eqb (pxv W H wib dB (c + dx) (r + dy)) (pxv W H wib dA c r)).
+    (fun c r => Bool.eqb (vis W H pB (c + dx) (r + dy)) (vis W H pA c r)).
+Definition translation_law (W H wib : Z) (dA dB : list Z) (dx dy : Z) : bool :=
+  translation_law_p W H (px wib dA) (px wib dB) dx dy.
 
 (* (3) whole-string scaling about the cursor: pixel (c,r) of the size-(h,v) rendering A is
    pixel (cx + (c-cx)/h, cy + (r-cy)/v) of the size-1 rendering C; nothing left of / above the cursor *)
 Definition scale_src (cx cy h v c r : Z) : Z * Z := (cx + (c - cx) / h, cy + (r - cy) / v).
-Definition scale_law (W H wib : Z) (dA dC : list Z) (cx cy h v : Z) : bool :=
+Definition scale_law_p (W H : Z) (pA pC : pix) (cx cy h v : Z) : bool :=
   all_rect 0 0 W H (fun c r =>
-    Bool.eqb (pxv W H wib dA c r)
-             ((cx <=? c) && (cy <=? r) && let '(c1, r1) := scale_src cx cy h v c r in pxv W H wib dC c1 r1)).
+    Bool.eqb (vis W H pA c r)
+             ((cx <=? c) && (cy <=? r) && let '(c1, r1) := scale_src cx cy h v c r in vis W H pC c1 r1)).
+Definition scale_law (W H wib : Z) (dA dC : list Z) (cx cy h v : Z) : bool :=
+  scale_law_p W H (px wib dA) (px wib dC) cx cy h v.
 
 (* (4) glyph-wise law, following the documented cursor rules (advance h*width + spacing per
    drawn character, byte 13 skipped, byte 10 = column 0 of the next text line): where pixel
@@ -51,13 +67,15 @@ Fixpoint src_pixel (cs ws : list Z) (s h v bbh : Z) (x y x1 y1 : Z) (a b : Z) : 
   | _, _ => None
   end.
 
-Definition glyph_law (W H wib : Z) (dA dC : list Z) (cs ws : list Z) (s h v bbh x y x1 y1 : Z) : bool :=
+Definition glyph_law_p (W H : Z) (pA pC : pix) (cs ws : list Z) (s h v bbh x y x1 y1 : Z) : bool :=
   all_rect 0 0 W H (fun a b =>
-    Bool.eqb (pxv W H wib dA a b)
+    Bool.eqb (vis W H pA a b)
              (match src_pixel cs ws s h v bbh x y x1 y1 a b with
-              | Some (a1, b1) => pxv W H wib dC a1 b1
+              | Some (a1, b1) => vis W H pC a1 b1
               | None => false
               end)).
+Definition glyph_law (W H wib : Z) (dA dC : list Z) (cs ws : list Z) (s h v bbh x y x1 y1 : Z) : bool :=
+  glyph_law_p W H (px wib dA) (px wib dC) cs ws s h v bbh x y x1 y1.
 
 (* "canvas large enough not to clip" for a one-line box (default bounding box) *)
 Definition box_fits (W H cx cy strw sh lineh : Z) : bool :=
